@@ -47,6 +47,8 @@ def mk(variant, salt=0):
             return sec
         if k == "prop":
             d, v = PV[(n * 5 + variant) % len(PV)]
+            if d is not None and not d.endswith("-tuple") and n % 3 == 0:
+                d = getattr(odml.DType, d)          # the other spelling of a dtype: the DType member
             return odml.Property(name=st["name"][h], dtype=d, values=list(v), unit=[None, "mV", " µm "][n % 3],
                                  uncertainty=[None, 0, 0.5, 12, 1e-07, 1e+16][n % 6], definition=TEXTS[(n + 1) % 9], reference=TEXTS[(n + 2) % 9],
                                  dependency=[None, "other"][n % 2], dependency_value=[None, "val"][n % 2],
